@@ -239,6 +239,16 @@ func (m *membership) universalIDByPartyID(id PartyID) UniversalID {
 	return m.pID2UID[id]
 }
 
+// universalIDByPartyIDAmong returns the node that represents the given party among the participants of a session.
+func (m *membership) universalIDByPartyIDAmong(id PartyID, participants []UniversalID) UniversalID {
+	for _, uID := range participants {
+		if pID, exists := m.uID2PID[uID]; exists && pID == id {
+			return uID
+		}
+	}
+	return m.universalIDByPartyID(id)
+}
+
 func computeMembership(mapping map[UniversalID]PartyID) *membership {
 	protocol2universal := make(map[PartyID]UniversalID)
 	universal2Protocol := make(map[UniversalID]PartyID)
@@ -644,7 +654,7 @@ func (s *Scheme) initializeDKG(dkg KeyGenerator, threshold int, members []Univer
 			s.Send(uint8(MsgTypeMPC), dkgTopicHash, payload, membersWithoutMe...)
 			return
 		}
-		s.Send(uint8(MsgTypeMPC), dkgTopicHash, payload, membership.universalIDByPartyID(PartyID(to)))
+		s.Send(uint8(MsgTypeMPC), dkgTopicHash, payload, membership.universalIDByPartyIDAmong(PartyID(to), members))
 	})
 
 	return nil
@@ -667,7 +677,7 @@ func (s *Scheme) initializeThresholdSigning(membership *membership, parties []Pa
 			s.Send(uint8(MsgTypeMPC), topicHash, payload, membersWithoutMe...)
 			return
 		}
-		s.Send(uint8(MsgTypeMPC), topicHash, payload, membership.universalIDByPartyID(PartyID(to)))
+		s.Send(uint8(MsgTypeMPC), topicHash, payload, membership.universalIDByPartyIDAmong(PartyID(to), signers))
 	})
 
 	return signer, nil
